@@ -238,9 +238,40 @@ pub struct SeriesFam {
     pub w_extra: usize,
     /// shortest series judged (C03 quantifies over lengths >= 1; the empty series belongs to C05)
     pub min_len: usize,
+    /// power-of-two scale factors for the scaling relation f(s*x) == s^k * f(x) (empty = not checked).
+    /// Scaling by a power of two commutes with every floating-point operation, so the relation is
+    /// exact; it exposes magnitude-dependent thresholds and floors that the unit-scale alphabets cannot.
+    pub scales: Vec<f64>,
     /// false => configuration not part of the property's space
     pub cfg_ok: fn(R1, usize, usize, Option<usize>) -> bool,
     pub classify: fn(&CaseInfo) -> Option<String>,
+}
+
+/// homogeneity degree of a statistic under x -> s*x
+pub fn scale_pow(f: R1) -> i32 {
+    match f {
+        R1::Sum | R1::Mean | R1::Ewm | R1::Wma | R1::Std | R1::Min | R1::Max | R1::Reg | R1::Tsf | R1::Slope | R1::Intercept | R1::Fdiff(_) => 1,
+        R1::Var | R1::ResidMean => 2,
+        R1::Skew | R1::Kurt | R1::Argmin | R1::Argmax | R1::Rank { .. } | R1::Zscore | R1::Minmax => 0,
+    }
+}
+/// relative closeness (no absolute floor: used at very small and very large scales)
+pub fn rel_close(g: f64, e: f64) -> bool {
+    g == e || (g - e).abs() <= 1e-9 * e.abs().max(g.abs())
+}
+pub fn scaled_matches(base: &Outcome<Vec<Cell>>, scaled: &Outcome<Vec<Cell>>, factor: f64) -> bool {
+    match (base, scaled) {
+        (Outcome::Ok(b), Outcome::Ok(s)) => {
+            b.len() == s.len()
+                && b.iter().zip(s).all(|(x, y)| match (x.num(), y.num()) {
+                    (None, None) => x.is_null() && y.is_null(),
+                    (Some(p), Some(q)) => rel_close(q, p * factor),
+                    _ => false,
+                })
+        }
+        (Outcome::Panic(_), Outcome::Panic(_)) => true,
+        _ => false,
+    }
 }
 
 pub fn cfg_all(_f: R1, _len: usize, _w: usize, _mp: Option<usize>) -> bool {
@@ -291,6 +322,27 @@ impl SeriesFam {
                                 ctx.error(format!("nondeterministic outcome: {entry} {} w={w} mp={mp:?}", show_word(&x)));
                             }
                         }
+                        if ty.kind == OutKind::F64 && ty.name.starts_with("f64") && path == Path::Ret {
+                            for &sc in &self.scales {
+                                let xs: Vec<X> = x.iter().map(|v| v.map(|a| a * sc)).collect();
+                                if let Some(gs) = (ty.run)(f, &xs, w, mp, path) {
+                                    ctx.evals += 1;
+                                    let factor = sc.powi(scale_pow(f));
+                                    // positions the model leaves open (skew / kurt of a constant window, ...) are skipped
+                                    let open = model.iter().any(|e| e.any || (e.null_ok && e.val.is_some()));
+                                    if !open && !scaled_matches(&got, &gs, factor) {
+                                        ctx.violation(Violation {
+                                            entry: format!("scaling:{entry}"),
+                                            finding: None,
+                                            size: len * 100 + w,
+                                            case: json!({"family": self.name, "word": word, "series": json_word(&x), "w": w, "mp": mp_json(mp), "scale": sc}),
+                                            expected: format!("f(s*x) == s^{} * f(x) = {} * {}", scale_pow(f), factor, show_outcome(&got)),
+                                            got: show_outcome(&gs),
+                                        });
+                                    }
+                                }
+                            }
+                        }
                         if let Some((pos, exp, g)) = judge(&got, &model, self.law, cmp, ty.kind) {
                             let info = CaseInfo { entry: &entry, f, plain: self.plain, x: &x, w, mp, pos, got: &got, model: &model, ty: &ty.name };
                             let finding = (self.classify)(&info);
@@ -324,6 +376,9 @@ impl TreeSys for SeriesFam {
     }
     fn visit(&self, word: &[u8], _parent: Option<&()>, ctx: &mut Ctx) {
         self.check_word(word, ctx)
+    }
+    fn name(&self) -> String {
+        self.name.clone()
     }
 }
 
@@ -396,7 +451,20 @@ pub struct PairFam {
     pub law: Law,
     pub w_lo: usize,
     pub w_extra: usize,
+    /// (s1, s2) power-of-two scale factors of the first / second series for the scaling relation
+    pub scales: Vec<(f64, f64)>,
     pub classify: fn(&PairInfo) -> Option<String>,
+}
+
+/// factor by which a two-series statistic changes under (y, x) -> (s1*y, s2*x)
+pub fn scale_factor2(f: R2, s1: f64, s2: f64) -> f64 {
+    match f {
+        R2::Cov => s1 * s2,
+        R2::Corr | R2::ResidSkew => 1.0,
+        R2::Alpha | R2::ResidMean | R2::ResidStd | R2::All(0) => s1,
+        R2::Beta | R2::All(1) => s1 / s2,
+        R2::All(_) => s1 * s1,
+    }
 }
 
 impl PairFam {
@@ -427,6 +495,28 @@ impl PairFam {
                             Some(g) => g,
                         };
                         ctx.eval(&self.name, outcome_hash(&got));
+                        if ty.kind == OutKind::F64 && ty.name.starts_with("f64xf64") && path == Path::Ret {
+                            for &(s1, s2) in &self.scales {
+                                let sa: Vec<X> = a.iter().map(|v| v.map(|p| p * s1)).collect();
+                                let sb: Vec<X> = b.iter().map(|v| v.map(|p| p * s2)).collect();
+                                if let Some(gs) = (ty.run)(f, &sa, &sb, w, mp, path) {
+                                    ctx.evals += 1;
+                                    let open = model.iter().any(|e| e.any || (e.null_ok && e.val.is_some()));
+                                    // residual statistics of an exact fit are rounding noise: no scaling law
+                                    let noise = matches!(f, R2::ResidMean | R2::ResidStd | R2::ResidSkew | R2::All(2)) && model.iter().any(|e| e.val.map_or(false, |v| v.abs() < 1e-9));
+                                    if !open && !noise && !scaled_matches(&got, &gs, scale_factor2(f, s1, s2)) {
+                                        ctx.violation(Violation {
+                                            entry: format!("scaling:{entry}"),
+                                            finding: None,
+                                            size: len * 100 + w,
+                                            case: json!({"family": self.name, "word": word, "first": json_word(a), "second": json_word(b), "w": w, "mp": mp_json(mp), "scales": [s1, s2]}),
+                                            expected: format!("{} * {}", scale_factor2(f, s1, s2), show_outcome(&got)),
+                                            got: show_outcome(&gs),
+                                        });
+                                    }
+                                }
+                            }
+                        }
                         if let Some((pos, exp, g)) = judge(&got, &model, self.law, Cmp::Tol, ty.kind) {
                             let info = PairInfo { entry: &entry, f, a, b, w, mp, pos, got: &got, model: &model, ty: &ty.name };
                             ctx.violation(Violation {
@@ -460,6 +550,9 @@ impl TreeSys for PairFam {
     fn visit(&self, word: &[u8], _p: Option<&()>, ctx: &mut Ctx) {
         let (a, b) = self.split(word);
         self.check_pair(word, &a, &b, ctx)
+    }
+    fn name(&self) -> String {
+        self.name.clone()
     }
 }
 
